@@ -21,7 +21,7 @@ from sim.streamsim import configs
 PROPERTY = "C10"
 LEVEL = "fault_enumeration"
 TIERS = {
-    "quick": {"runs": 4200, "budget": 150, "selftest": 24, "shrink_budget": 80, "chunk": 16, "task_timeout": 900},
+    "quick": {"runs": 2700, "budget": 150, "selftest": 24, "shrink_budget": 80, "chunk": 16, "task_timeout": 900},
     "thorough": {"runs": 60000, "budget": 2400, "selftest": 400, "shrink_budget": 200, "chunk": 16, "task_timeout": 1800},
 }
 RUN_TIMEOUT_S = 300
